@@ -415,3 +415,68 @@ Definition ct_conforms (d : doc) (r : response) : bool :=
   end.
 Definition nonempty_ct (r : response) : bool :=
   match get_header s_content_type r with Some [] => false | _ => true end.
+
+(* ---------- writeOnly rewrite, and the loaded API schema as state ----------
+   Object schemas at the level the rewrite works on: property names with their
+   writeOnly / x-writeOnly flag, and the required list. *)
+Record oschema := { o_props : list (str * bool); o_required : list str }.
+Record jschema := { j_props : list str; j_required : list str; j_forbidden : list str }.
+
+Fixpoint remove_first (x : str) (l : list str) : list str :=
+  match l with
+  | [] => []
+  | y :: r => if str_eqb x y then r else y :: remove_first x r
+  end.
+Definition wo_names (s : oschema) : list str := map fst (filter snd (o_props s)).
+
+(* converter.to_json_schema on the object schema of a response (converter.py:11-42) with
+   rewrite_properties / forbid_properties (converter.py:57-80): the JSON Schema handed to the
+   validator, and the schema object of the caller AFTER the call - the rewrite works on a deepclone,
+   so the loaded document is left as it was *)
+Definition to_json_schema_obj (s : oschema) : jschema * oschema :=
+  ({| j_props := map fst (filter (fun p => negb (snd p)) (o_props s));
+      j_required := fold_left (fun req n => remove_first n req) (wo_names s) (o_required s);
+      j_forbidden := wo_names s |}, s).
+
+(* Draft 4 on property presence: required, and not {required: forbidden} *)
+Definition has (present : list str) (n : str) : bool := existsb (str_eqb n) present.
+Definition jvalid (j : jschema) (present : list str) : bool :=
+  forallb (has present) (j_required j)
+  && match j_forbidden j with [] => true | f => negb (forallb (has present) f) end.
+
+(* as documented: a writeOnly property does not occur in a response and is not required of it *)
+Definition is_wo (s : oschema) (n : str) : bool := existsb (str_eqb n) (wo_names s).
+Definition ovalid (s : oschema) (present : list str) : bool :=
+  forallb (fun n => negb (has present n)) (wo_names s)
+  && forallb (fun n => is_wo s n || has present n) (o_required s).
+
+(* F9 *)
+Definition single_writeonly (s : oschema) : bool := (length (wo_names s) <=? 1)%nat.
+Fixpoint nodupb (l : list str) : bool :=
+  match l with [] => true | x :: r => negb (existsb (str_eqb x) r) && nodupb r end.
+
+(* the object schemas held by the loaded API schema, by schema id *)
+Definition store := list (N * oschema).
+Fixpoint store_get (sid : N) (st : store) : option oschema :=
+  match st with
+  | [] => None
+  | (k, s) :: r => if k =? sid then Some s else store_get sid r
+  end.
+(* inst did: the object instances of body did that the schema applies to (one for an object,
+   the items for an array of objects, ...), each as the list of its property names *)
+Definition valid_st (st : store) (inst : N -> list (list str)) (sid did : N) : bool :=
+  match store_get sid st with
+  | Some s => forallb (jvalid (fst (to_json_schema_obj s))) (inst did)
+  | None => true
+  end.
+(* what a validation leaves behind: every schema it converted *)
+Definition touch (st : store) : store := map (fun kv => (fst kv, snd (to_json_schema_obj (snd kv)))) st.
+Definition verdict_st (hvalid : N -> str -> bool) (inst : N -> list (list str)) (d : doc) (st : store) (r : response)
+  : list fk * store := (verdict (valid_st st inst) hvalid d r, touch st).
+(* validations one after another on ONE loaded schema *)
+Fixpoint verdict_seq (hvalid : N -> str -> bool) (inst : N -> list (list str)) (d : doc) (st : store) (rs : list response)
+  : list (list fk) :=
+  match rs with
+  | [] => []
+  | r :: rs' => let p := verdict_st hvalid inst d st r in fst p :: verdict_seq hvalid inst d (snd p) rs'
+  end.
